@@ -42,6 +42,8 @@ def corpus(chk, tier):
         out.append((f"gen{i}", printer.program(r["prog"]), None))
     out.append(("refused1", "fn dsp(){ 1 + }\n", None))
     out.append(("refused2", "fn dsp(){ undefined_name(1) }\n", None))
+    out += [(k, v, None) for k, v in GOOD_MACRO.items()]
+    out += [(k, v, None) for k, v in FAULTS.items()]
     return out
 
 
@@ -73,6 +75,24 @@ def model(chk, tier):
     if not r.violation:
         raise vlib.ToolError("Session.tla: the modelled race does not violate Deterministic (vacuous model)")
     chk.tlc(r, "Session[race: violation expected]")
+    # a job that panics while it holds the session lock poisons it for everybody (one source of the model is faulty)
+    r = vlib.run_tlc("Session", cfg("Session_c19_poison_run", "poison", 2, 4), workers=4, timeout=600)
+    if not r.violation:
+        raise vlib.ToolError("Session.tla: a panic under the session lock does not violate Deterministic (vacuous model)")
+    chk.tlc(r, "Session[panic under the lock: violation expected]")
+
+
+# Jobs that fail hard: alone, each of them ends in a panic of the compiler (a macro-stage primitive fed malformed input,
+# an unsupported shape in code generation).  That is the job's own result; next to other threads it must be the same
+# panic, and nobody else's result may change - during the faulty job or at any time after it.
+FAULTS = {
+    "fault:str_to_number": '#stage(macro)\nfn broken(){\n  str_to_number("12x") |> lift_f\n}\n#stage(main)\nfn dsp(){\n  broken!()\n}\n',
+    "fault:str_char_at": '#stage(macro)\nfn broken(){\n  str_char_at("ab", 7) |> str_to_number |> lift_f\n}\n#stage(main)\nfn dsp(){\n  broken!()\n}\n',
+    "fault:lambda2_applied": "fn dsp(){ (|a, b| a * b)(2, 3) }\n",
+}
+GOOD_MACRO = {   # well-formed uses of the same primitives
+    f"macro_str{k}": f'#stage(macro)\nfn konst(){{\n  str_to_number("{k}.25") + str_length("abc") |> lift_f\n}}\n#stage(main)\nfn dsp(){{\n  konst!() + 0.5\n}}\n'
+    for k in (1, 2)}
 
 
 def make_req(name, src, path, rid):
@@ -98,12 +118,20 @@ def run(tier):
         events.append({"src": name, "who": "solo", "obs": observation(out)})
         usable.append((name, src, path))
     chk.count("sources_that_kill_the_process_alone(C03)", len(srcs) - len(usable))
+    faults = {n: (s_, p_) for n, s_, p_ in usable if n in FAULTS}
+    chk.cov["fault_jobs"] = sorted(faults)
     # rounds
     rounds = []
     for r in range(ROUNDS[tier]):
         k = rng.choice(KS[tier])
-        mode = rng.choice(["distinct", "identical", "mixed"])
-        if mode == "identical":
+        mode = rng.choice(["distinct", "identical", "mixed"] + (["with_fault"] if faults else []))
+        if mode == "with_fault":
+            fn_ = rng.choice(sorted(faults))
+            picks = [rng.choice(usable) for _ in range(k - 1)]
+            picks.insert(rng.randrange(k), (fn_, faults[fn_][0], None))
+            if rng.random() < 0.5:     # the same faulty job on two threads at once
+                picks[rng.randrange(k)] = (fn_, faults[fn_][0], None)
+        elif mode == "identical":
             picks = [rng.choice(usable)] * k
         elif mode == "distinct":
             picks = [usable[i % len(usable)] for i in rng.sample(range(len(usable)), min(k, len(usable)))]
